@@ -21,6 +21,14 @@ structure Globals where
   ignoreOrder : Bool := false
   deriving DecidableEq, Repr, Inhabited
 
+/-- canonical text of a default value: what `Restore` prints with the upper-case flags -/
+def defaultCanon : DefaultVal → String
+  | .num s => s
+  | .str s => "'" ++ s.replace "'" "''" ++ "'"
+  | .now => "CURRENT_TIMESTAMP()"
+  | .null => "NULL"
+  | .raw s => s
+
 structure ColDef where
   name : String
   typ : String := ""            -- type text as printed ("" when the column has no type)
